@@ -237,6 +237,52 @@ func runC29(c *eng.Ctx) {
 			}
 		}
 	})
+	// Success means the mode's work was done: every way through halt that
+	// returns nil either is a pause that persisted Paused=true, a shutdown that
+	// disabled the controller, or it disabled the controller and removed both
+	// files (no early «nothing to do» exit may skip the terminate work).
+	{
+		paths := pathsToNilReturns(c, "R5", halt, 20000)
+		bad, why := 0, ""
+		for _, p := range paths {
+			removed, disabled, paused := map[string]bool{}, false, false
+			for _, b := range p.Blocks {
+				for _, in := range b.Instrs {
+					switch x := in.(type) {
+					case *ssa.Call:
+						if eng.CalleeName(x) == "os.Remove" {
+							removed[eng.Render(x.Call.Args[0])] = true
+						}
+					case *ssa.Store:
+						if fa, ok := x.Addr.(*ssa.FieldAddr); ok {
+							if v, isC := eng.ConstBool(x.Val); isC && v {
+								switch eng.FieldOf(fa).Name() {
+								case "disabled":
+									disabled = true
+								case "Paused":
+									paused = true
+								}
+							}
+						}
+					}
+				}
+			}
+			ok := false
+			switch {
+			case pathHas(p, `^\(p2 == 0:controllerHaltMode\)$`, true):
+				ok = paused && pathHas(p, `MarshalAndSaveProtobuf\(p0\.sessionPath, .*\) == nil\)$`, true)
+			case pathHas(p, `^\(p2 == 1:controllerHaltMode\)$`, true):
+				ok = disabled
+			default:
+				ok = disabled && removed["p0.sessionPath"] && removed["p0.archivePath"]
+			}
+			if !ok {
+				bad++
+				why = atomsOf(p)
+			}
+		}
+		c.Check("R5", "success-means-mode-work-done", halt.Pos(), len(paths) >= 3 && bad == 0, "halt returns nil only after the requested mode's work: pause persisted, shutdown disabled, terminate disabled and both files removed — whatever state the session was in", fmt.Sprintf("%d of %d successful ways skip it; e.g. %s", bad, len(paths), why[:min(len(why), 300)]))
+	}
 	if mt := c.MustFunc("R5", syncPkg, "Manager.Terminate"); mt != nil {
 		del := false
 		for _, f := range eng.WithClosures(mt) {
